@@ -105,3 +105,6 @@ def begin_run(seed: int):
     random.seed(seed ^ 0x5DEECE66D)
     _uuid_rng.seed(seed ^ 0xABCDEF)
     gc.disable()  # refcounting is deterministic; the cyclic collector is not needed inside one short run
+    hook = os.environ.get('DSIM_DEBUG_HOOK')  # debugging aid: a python file executed at the start of a run
+    if hook:
+        exec(compile(open(hook).read(), hook, 'exec'), {'__name__': 'dsim_debug_hook'})  # noqa: S102
